@@ -79,7 +79,7 @@ Lemma tree_step_all : TreeStep T tab_el tab_en check_fn LATEST root_attrs.
 Proof. intros o w r w' TI HK H. eapply (TreeInv_step T tab_el tab_en check_fn LATEST root_attrs); eauto. Qed.
 
 Lemma inv_step_all o w r w' :
-  TreeInv w -> FilesInv T w -> Pending10 T w o = false -> Known10 w o = false -> Unowned w o = false ->
+  TreeInv w -> FilesInv T w -> RootNamedLast T w o = false -> Known10 w o = false -> Unowned w o = false ->
   run_op T tab_el tab_en check_fn LATEST root_attrs o w = Val (r, w') -> FilesInv T w'.
 Proof. apply inv_step. apply core_step_all. Qed.
 
